@@ -496,6 +496,85 @@ def c_gff_group(rng):
     return {"kind": "gff_group", "ops": [f"gff_group {enc}"]}
 
 
+# ---- GenBank feature table / ORIGIN at line level
+def g_gb_quals(rng, valid=True):
+    q = {}
+    for _ in range(rng.choice([0, 1, 2, 3, 4])):
+        k = rng.choice(["gene", "product", "note", "pseudo", "codon_start", "db_xref", "a/b", "x-1", "partial", "k_9"])
+        r = rng.random()
+        if r < 0.3:
+            q[k] = None
+        else:
+            v = "".join(rng.choice("abAB19 /=:;,.()-_'%<>@+") for _ in range(rng.choice([0, 1, 3, 8, 20])))
+            if r < 0.45:
+                v += "\n" + "".join(rng.choice("xyz /= ") for _ in range(rng.choice([0, 2, 6])))
+            if r > 0.9:
+                v = rng.choice([" ", "  x ", "/k=", "/", "="]) + v
+            q[k] = v
+    return q
+
+
+def enc_quals(q):
+    return "|".join(es(k) + "~" + ("!" if v is None else es(v)) for k, v in q.items()) if q else "-"
+
+
+def enc_feat(f):
+    return es(f["key"]) + "@" + ";".join(":".join(str(x) for x in l) for l in f["locs"]) + "@" + enc_quals(f["qual"])
+
+
+def g_gb_feat(rng, single=False):
+    return {"key": rng.choice(["gene", "CDS", "source", "misc_feature", "a-15-char-key__", "5'UTR", "x y"]),
+            "locs": [g_loc(rng)] if single else g_locs(rng), "qual": g_gb_quals(rng)}
+
+
+def c_gbf_rt(rng):
+    feats = [g_gb_feat(rng) for _ in range(rng.choice([0, 1, 1, 2, 3]))]
+    if not feats:
+        return {"kind": "gbf_rt", "ops": ["gbf_parse -"]}
+    return {"kind": "gbf_rt", "ops": ["gbf_rt " + "#".join(enc_feat(f) for f in feats)],
+            "spec": {"o": "genbank", "format": "gb", "seq": "ACGT", "start": 1, "features": feats}}
+
+
+def c_gbf_print(rng):
+    return {"kind": "gbf_print", "ops": ["gbf_print " + enc_feat(g_gb_feat(rng, single=True))]}
+
+
+def c_gbf_parse(rng):
+    """malformed-ish stream: hand-made FEATURES content"""
+    lines = []
+    for _ in range(rng.randint(0, 7)):
+        r = rng.random()
+        if r < 0.3:
+            lines.append("     " + rng.choice(["gene", "CDS", "x", "averyveryverylongkey"]).ljust(16) + rng.choice(
+                ["1..5", "complement(3..9)", "join(1..2,", "7", "<1..>9", "x", "", "9..5", "1..5 /pseudo", "1..5 /a=\"b\""]))
+        elif r < 0.85:
+            lines.append(" " * 21 + rng.choice(
+                ['/gene="a"', '/gene="a', 'b c"', '/pseudo', '/pseudo /x', '/codon_start=1', '/note="x=y /z"', '/note=""', '/a=b=c',
+                 '/k', '/k="1"', '/k="2"', '"', '=', '/', '/=', '/="v"', 'text', '/n="a" /m="b"', '/n="a"/m', ' /sp ="q" ', '/q=" x "',
+                 '3..4)', '/u=v w', '/gene ="a"']))
+        elif r < 0.92:
+            lines.append(rng.choice(["", "  x", "     ", "      y"]))
+        else:
+            lines.append(" " * rng.choice([5, 20, 22]) + rng.choice(['/gene="a"', "zz", ""]))
+    return {"kind": "gbf_parse", "ops": [f"gbf_parse {el(lines)}"]}
+
+
+def c_org_print(rng):
+    n = rng.choice([0, 1, 9, 10, 11, 59, 60, 61, 119, 120, 121, 185])
+    seq = "".join(rng.choice("ACGTNacgtRYKM*XZ") for _ in range(n))
+    start = rng.choice([1, 1, 0, 7, -5, -61, 99999990, 999999999, 1000000000, -99999999])
+    return {"kind": "org_print", "ops": [f"org_print {start} {es(seq)}"],
+            "spec": {"o": "origin", "start": start, "seq": seq}}
+
+
+def c_org_read(rng):
+    lines = []
+    for _ in range(rng.randint(0, 4)):
+        lines.append(rng.choice(["        1 acgt", "       -5 acgt nn", "x-5 a", "- 5 ac", "", "  ", "1", "a 1", "  +7 ac", "12ab-34-c", "-", "--3a",
+                                 "       61 acgtacgtac acgt", "abc", "9-"]))
+    return {"kind": "org_read", "ops": [f"org_read {el(lines)}"]}
+
+
 def c_gff_text(rng):
     lines = []
     for _ in range(rng.randint(0, 7)):
@@ -633,7 +712,7 @@ def c_seq_conv(rng):
 
 GENS = [(c_fasta_rt, 8), (c_fasta_edit, 8), (c_fasta_text, 4), (c_fastq_rt, 8), (c_fastq_edit, 6), (c_fastq_text, 4),
         (c_fastq_offset, 2), (c_loc, 10), (c_loc_parse, 6), (c_gff_quote, 4), (c_gff_line, 8), (c_gff_parse, 3),
-        (c_gff_edit, 8), (c_gff_group, 5), (c_gff_text, 3), (c_gb_edit, 8), (c_gb_text, 3), (c_wrap, 2), (c_genbank, 10), (c_gff_annot, 5),
+        (c_gff_edit, 8), (c_gff_group, 5), (c_gff_text, 3), (c_gbf_rt, 8), (c_gbf_print, 4), (c_gbf_parse, 6), (c_org_print, 4), (c_org_read, 3), (c_gb_edit, 8), (c_gb_text, 3), (c_wrap, 2), (c_genbank, 10), (c_gff_annot, 5),
         (c_seq_conv, 4)]
 
 
@@ -735,6 +814,64 @@ def _reread(cls, f, *args):
     return cls.read(io.StringIO(buf.getvalue()), *args)
 
 
+class _GbStub:
+    """stands in for a GenBankFile: get_annotation/set_annotation/set_sequence only use these two methods"""
+    def __init__(self, lines=None):
+        self.lines = lines
+
+    def get_fields(self, name):
+        return [(self.lines, {})]
+
+    def set_field(self, name, content, subfield_dict=None):
+        self.lines = list(content)
+
+
+def _dquals(t):
+    if t == "-":
+        return {}
+    return {ds(p.split("~")[0]): (None if p.split("~")[1] == "!" else ds(p.split("~")[1])) for p in t.split("|")}
+
+
+def _dfeat(t):
+    from biotite.sequence.annotation import Feature
+    k, ls, q = t.split("@")
+    return Feature(ds(k), [_mkloc([int(x) for x in l.split(":")]) for l in ls.split(";")], _dquals(q))
+
+
+def _feats_out(annot):
+    out = set()
+    for f in annot:
+        q = "|".join(es(k) + "~" + ("!" if v is None else es(v)) for k, v in f.qual.items()) if f.qual else "-"
+        out.add(f"{es(f.key)}@{';'.join(sorted({_locout(l) for l in f.locs}))}@{q}")
+    return "ok " + ("#".join(sorted(out)) if out else "-")
+
+
+def _gb_line_op(k, w):
+    from biotite.sequence.annotation import Annotation
+    from biotite.sequence.io.genbank import annotation as gba
+    from biotite.sequence.io.genbank import sequence as gbs
+    if k == "gbf_parse":
+        return _feats_out(gba.get_annotation(_GbStub(dl(w[1]))))
+    if k == "gbf_print":
+        st = _GbStub()
+        gba.set_annotation(st, Annotation([_dfeat(w[1])]))
+        return "ok " + el(st.lines)
+    if k == "gbf_rt":
+        st = _GbStub()
+        gba.set_annotation(st, Annotation([_dfeat(t) for t in w[1].split("#")]))
+        return _feats_out(gba.get_annotation(st))
+    if k == "org_print":
+        st = _GbStub()
+        gbs.set_sequence(st, ds(w[2]), int(w[1]))
+        return "ok " + el(st.lines)
+    lines = dl(w[1])
+    try:
+        a = str(gbs._get_seq_start(lines))
+    except Exception as e:  # noqa: BLE001
+        a = err(e)
+    return f"ok {a} {es(gbs._field_to_seq_string(lines))}"
+
+
 def run_impl(case):
     with warnings.catch_warnings():
         warnings.simplefilter("ignore")
@@ -826,6 +963,8 @@ def _run_impl(case):
             elif k == "gff_parse":
                 g = GFFFile(); g.lines = [ds(w[1])]; g._entries = [0]
                 out.append("ok " + _gff_entry_out(g[0]))
+            elif k in ("gbf_parse", "gbf_print", "gbf_rt", "org_print", "org_read"):
+                out.append(_gb_line_op(k, w))
             elif k == "gff_group":
                 from biotite.sequence.annotation import Location
                 import biotite.sequence.io.gff as gffmod
@@ -1307,7 +1446,19 @@ def _o_seq_conv(spec):
     return v
 
 
-ORACLES = {"fasta": _o_fasta, "fasta_text": _o_fasta_text, "fastq": _o_fastq, "fastq_text": _o_fastq_text, "loc": _o_loc,
+def _o_origin(spec):
+    from biotite.sequence.io.genbank import sequence as gbs
+    st = _GbStub()
+    gbs.set_sequence(st, spec["seq"], spec["start"])
+    v = []
+    if gbs._field_to_seq_string(st.lines) != spec["seq"].lower():
+        v.append(("C12/genbank/origin-sequence-roundtrip", f"{spec['start']} {spec['seq'][:20]!r}... -> {gbs._field_to_seq_string(st.lines)[:30]!r}"))
+    if gbs._get_seq_start(st.lines) != spec["start"]:
+        v.append(("C12/genbank/sequence-start", f"{spec['start']} -> {gbs._get_seq_start(st.lines)}"))
+    return v
+
+
+ORACLES = {"origin": _o_origin, "fasta": _o_fasta, "fasta_text": _o_fasta_text, "fastq": _o_fastq, "fastq_text": _o_fastq_text, "loc": _o_loc,
            "genbank": _o_genbank, "gff_annot": _o_gff_annot, "gff_entries": _o_gff_entries, "gff_hist": _o_gff_hist,
            "gb_hist": _o_gb_hist, "quote": _o_quote, "seq_conv": _o_seq_conv}
 
